@@ -1,6 +1,7 @@
 from core import Case, hexs
 import base64 as pyb64
 PID = "C14"
+SOURCE_TIE = ['tie_b32']      # theorems of coq_tie/Tie_Source.v re-checked against Gen_Source.v regenerated from /repo on every run
 DRIVER = "drv_pure"
 RULE = ("base32_encode (ptr, vector, secure_buffer) and base32_decode (reused vector / secure_buffer outputs + fresh vector) vs the models; encoder: all byte strings of length <= 2 "
         "(sampled grid), every pair of positions within a 5-byte group over a 4-value byte set, random to 200 bytes x pad; decoder: valid encodings, every pad-run length 0..8 in the last "
